@@ -188,7 +188,9 @@ spec("twins",
             (2, 0): H("linux", ["ssh"], ["tomcat", "cron"])},
      # e_never: probability exactly 0 (accepted by the format): never succeeds, whatever the action space
      exploits={"e_ssh": E("ssh", "linux", 0.9, 1, U), "e_never": E("ssh", None, 0.0, 1, R)},
-     privescs={"pe_tomcat": P("tomcat", "linux", 1.0, 1, R), "pe_never": P("tomcat", None, 0, 1, R)},
+     # pe_daemon: a second escalation for the SAME OS through another process (the last process column)
+     privescs={"pe_tomcat": P("tomcat", "linux", 1.0, 1, R), "pe_never": P("tomcat", None, 0, 1, R),
+               "pe_daemon": P("daemon", "linux", 1.0, 2, R)},
      fw={(0, 1): ["ssh"], (1, 0): [], (1, 2): ["ssh"], (2, 1): ["ssh"]},
      sens={(1, 0): 7, (2, 0): 3})
 
@@ -203,18 +205,19 @@ spec("user_only",
      sens={(1, 0): 3, (1, 1): 4}, step_limit=4)
 
 
-# --- a ring of six subnets behind one gateway: every subnet can be approached from two sides, and compromising the
-#     far side makes subnets CLOSER to the internet reachable (4 -> 5, 3 -> ... going round)
+# --- a ring of six subnets behind one gateway (subnet 4: the first host row is NOT public and stays undiscovered
+#     for a while): every subnet can be approached from two sides, and compromising the far side makes subnets
+#     CLOSER to the internet reachable
 spec("ring",
-     subnets=[1, 1, 1, 1, 1, 1], topology=topo(7, [(0, 1), (1, 2), (2, 3), (3, 4), (4, 5), (5, 6), (6, 1)]),
+     subnets=[1, 1, 1, 1, 1, 1], topology=topo(7, [(0, 4), (1, 2), (2, 3), (3, 4), (4, 5), (5, 6), (6, 1)]),
      os=["linux"], services=["ssh"], processes=["p"],
      hosts=dict(((s, 0), H("linux", ["ssh"], [])) for s in range(1, 7)),
      exploits={"e_ssh": E("ssh", None, 1.0, 1, R)},
      privescs={"pe_p": P("p", None, 1.0, 1, R)},
-     fw=dict([((0, 1), ["ssh"]), ((1, 0), [])]
+     fw=dict([((0, 4), ["ssh"]), ((4, 0), [])]
              + [((a, b), ["ssh"]) for a, b in [(1, 2), (2, 3), (3, 4), (4, 5), (5, 6), (6, 1)]]
              + [((b, a), ["ssh"]) for a, b in [(1, 2), (2, 3), (3, 4), (4, 5), (5, 6), (6, 1)]]),
-     sens={(4, 0): 10, (6, 0): 2.1, (2, 0): 0.1})
+     sens={(1, 0): 10, (6, 0): 2.1, (2, 0): 0.1})
 
 # --- 68 hosts (tensor rows beyond 64, more than 1000 cells), two gateways at opposite ends of the row order;
 #     recorded goal-seeking sweeps only
